@@ -43,6 +43,49 @@ class MachineryError(Exception):
     """Exit code 2: the framework itself could not run (never a VIOLATION)."""
 
 
+class HangError(Exception):
+    """The code under test did not return within the time limit of `time_limit` (an observation, like any exception)."""
+
+
+_hangs = 0          # per process: how often a time limit expired
+
+
+def hangs_seen() -> int:
+    return _hangs
+
+
+class time_limit:
+    """`with time_limit(10): real_code()` — raises HangError inside the block when it runs longer (SIGALRM, so main thread
+    of the process only: elsewhere it is a no-op).  A harness calls the real code under a limit wherever a changed tree
+    could loop for ever; the expiry is an observation about the code (`err internal`), never a crash of the harness.
+    After a few expiries in one process the callers may stop feeding it cases (`hangs_seen()`): one failing input is enough."""
+
+    def __init__(self, seconds: float):
+        self.seconds = seconds
+        self.armed = False
+
+    def _fire(self, signum, frame):
+        global _hangs
+        _hangs += 1
+        raise HangError(f"no result within {self.seconds} s")
+
+    def __enter__(self):
+        import signal
+        import threading
+        if threading.current_thread() is threading.main_thread():
+            self.old = signal.signal(signal.SIGALRM, self._fire)
+            signal.setitimer(signal.ITIMER_REAL, self.seconds)
+            self.armed = True
+        return self
+
+    def __exit__(self, *a):
+        if self.armed:
+            import signal
+            signal.setitimer(signal.ITIMER_REAL, 0)
+            signal.signal(signal.SIGALRM, self.old)
+        return False
+
+
 def use_repo():
     """Make `import pyrtma` resolve to the working tree under test, not to an installed copy."""
     src = str(REPO / "src")
